@@ -18,7 +18,11 @@ class MoleculeCutGroup:
 
         for keys, df in self._group:
             key: str = keys[0]  # type: ignore
-            gt, le = map(float, key[1:-1].split(", "))
+            if key is None:
+                # NOTE: molecules whose feature is null do not belong to any bin
+                gt = le = float("nan")
+            else:
+                gt, le = map(float, key[1:-1].split(", "))
             mole = Molecules.from_dataframe(df.drop(self._label))
             yield CutEdges(gt, le), mole
 
